@@ -71,9 +71,9 @@ def plan(tier, seed):
         enum_budget = 20
         traced = 4
     else:
-        n_hist, n_fault, enum_cards = 1500, 3500, [("S3", "default"), ("V3", "default"), ("S3", "cached_amp"), ("S3", "base_factor"), ("H3", "default"), ("C4", "default"), ("S3", "no_id_cached")]
+        n_hist, n_fault, enum_cards = 1000, 2400, [("S3", "default"), ("V3", "default"), ("C4s", "default"), ("S3", "cached_amp"), ("H3", "default")]
         enum_budget = 260  # helper-layer sites completely (first/last occurrence), deep sites sampled up to this number
-        traced = 160
+        traced = 100
     i = 0
     kinds = [None, None, "C4s", None, "C4", None, "V3", None, "C4s", "H3"]  # every card family gets its share
     for k in range(n_hist):
@@ -95,7 +95,7 @@ def plan(tier, seed):
     return {
         "jobs": jobs,
         "timeout": 150,
-        "budget_s": 100 if tier == "quick" else 2400,
+        "budget_s": 100 if tier == "quick" else 3000,
         "level": "fault_enumeration",
         "rule": RULE,
         "min_executed": 40,
@@ -188,7 +188,7 @@ def generate(job):
     kind = job.get("kind", "history")
     rm, rk, ro, rf = rs.child("model"), rs.child("knobs"), rs.child("ops"), rs.child("faults")
     if kind == "enum":
-        card = cards.make_card(rm, job.get("card_kind", "S3"), **({"n_res": 2} if job.get("card_kind", "S3") in ("S3", "V3") else {}))
+        card = cards.make_card(rm, job.get("card_kind", "S3"), **({"n_res": 2} if job.get("card_kind", "S3") in ("S3", "V3") else {}))  # C4s / H3 / C4 take no n_res
         return {
             "kind": "enum",
             "card": card,
